@@ -151,10 +151,13 @@ struct Record {
   vector<double> point(size_t k) const { return vector<double>(xs.begin() + static_cast<long>(k * n), xs.begin() + static_cast<long>((k + 1) * n)); }
 };
 
+struct EvalBudget {};  // thrown by the objective (deliberately not a std::exception) when its evaluation allowance is used up
+
 class Obj : public virtual SecondOrderDerivable, public AbstractParametrizable {
   Spec s_; double v_ = 0; vector<double> g_, H_; bool d1_ = true, d2_ = true;
 public:
   Record rec;
+  size_t allowance = 0;  // 0 = unlimited
   Obj(const Spec& s, const vector<double>& x0, const vector<Iv>* cons) : AbstractParametrizable(""), s_(s) {
     for (int j = 0; j < s.n; ++j) addParameter_(new Parameter(nm(j), x0[static_cast<size_t>(j)], cons ? mk((*cons)[static_cast<size_t>(j)]) : nullptr));
     rec.n = static_cast<size_t>(s.n);
@@ -165,6 +168,7 @@ public:
   void recompute() { v_ = s_.eval(here(), &g_, &H_); }
   void fireParameterChanged(const ParameterList&) override { recompute(); }
   void setParameters(const ParameterList& pl) override {
+    if (allowance && rec.count() >= allowance) throw EvalBudget();
     matchParametersValues(pl);
     vector<double> x = here(); rec.xs.insert(rec.xs.end(), x.begin(), x.end()); rec.fs.push_back(v_);
   }
@@ -199,7 +203,7 @@ struct Case {
   bool activeSide = false;
 };
 
-struct Filter { int policy = -1; int needCons = -1; bool quadOnly = false; bool allowSmallCap = true; bool allowFunctionCons = false; bool moreSmallCap = false; };
+struct Filter { int policy = -1; int needCons = -1; bool quadOnly = false; bool allowSmallCap = true; bool allowFunctionCons = false; bool moreSmallCap = false; bool convergence = false; };
 
 void genSpec(vf::Ctx& c, Spec& s, int n, bool quadOnly) {
   s.n = n;
@@ -219,7 +223,7 @@ void genSpec(vf::Ctx& c, Spec& s, int n, bool quadOnly) {
   s.buildQ();
 }
 
-void genStart(vf::Ctx& c, Case& k) {
+void genStart(vf::Ctx& c, Case& k, bool noLattice) {
   size_t N = static_cast<size_t>(k.spec.n);
   k.start.resize(N);
   k.startMode = static_cast<int>(c.weighted({5, 1, 1, 2}));
@@ -227,7 +231,10 @@ void genStart(vf::Ctx& c, Case& k) {
   for (size_t i = 0; i < N; ++i) {
     double off;
     switch (k.startMode) {
-      case 0: off = c.flag() ? c.real(-8, 8) : c.ival(8); break;
+      case 0: {
+        bool re = c.flag(); double a = c.real(0, 7.6), b = c.ival(8); bool neg = c.flag();
+        off = !(re || noLattice) ? b : (neg ? -1 : 1) * (0.37 + a);   // the simplest real offset is 0.37
+        break; }
       case 1: off = 0; break;
       case 2: off = c.real(-1e-8, 1e-8); break;
       default: off = mag * c.real(-1, 1);
@@ -271,9 +278,13 @@ int genSubKind(vf::Ctx& c, size_t groupSize) {
 Case genCase(vf::Ctx& c, const Filter& f, const vector<int>& opts) {
   Case k;
   k.opt = opts[c.below(opts.size())];
-  int n = oneDim(k.opt) ? 1 : k.opt == META ? c.irange(2, 6) : c.irange(1, 6);
+  // Convergence law: the simplex method stops on the spread of the function values over its vertices, which is 0 for
+  // vertices placed symmetrically about the minimiser (always possible with 2 vertices, and on a lattice of starts);
+  // that is Nelder-Mead, not a defect: dimension >= 2 and non-lattice starts there.
+  bool simplexConv = f.convergence && (k.opt == DSM || k.opt == META);
+  int n = oneDim(k.opt) ? 1 : (k.opt == META || simplexConv) ? c.irange(2, 6) : c.irange(1, 6);
   genSpec(c, k.spec, n, f.quadOnly);
-  genStart(c, k);
+  genStart(c, k, simplexConv);
   genCons(c, k, f.needCons);
   k.policy = f.policy >= 0 ? f.policy : static_cast<int>(c.below(3));
   if (f.allowFunctionCons && k.anyCons && k.policy != IGNORE) k.consOnFunction = c.flag();
@@ -298,7 +309,13 @@ Case genCase(vf::Ctx& c, const Filter& f, const vector<int>& opts) {
     int ng = c.irange(2, 3);
     k.subs.resize(static_cast<size_t>(ng));
     for (int v = 0; v < n; ++v) k.subs[v < ng ? static_cast<size_t>(v) : c.below(static_cast<uint64_t>(ng))].vars.push_back(v);  // every group non-empty
-    for (auto& s : k.subs) { s.kind = genSubKind(c, s.vars.size()); s.full = c.flag(); }
+    for (auto& s : k.subs) {
+      s.kind = genSubKind(c, s.vars.size()); s.full = c.flag();
+      // Convergence law: DownhillSimplexMethod::init() builds a fresh simplex of fixed size 0.2 and the meta-optimiser
+      // calls init() before every step, so "one step per round" of the simplex method cannot refine below that size
+      // by construction (and 2 vertices stop on symmetric values, see above): full runs on >= 2 variables there.
+      if (f.convergence && s.kind == DSM) { s.full = true; if (s.vars.size() < 2) s.kind = SIMPLE; }
+    }
     k.metaN = static_cast<unsigned>(c.irange(1, 3));
   }
   return k;
@@ -331,8 +348,14 @@ struct Marker : public OptimizationListener {
   bool listenerModifiesParameters() const override { return false; }
 };
 
+// Termination made cheap and deterministic for one class of starts: from the exact minimiser nothing can be improved,
+// every optimiser stops by its tolerance test (or, simplex method on an objective with minimum value 0, by its own cap of
+// 5000) after at most a few thousand objective evaluations (worst seen: 3338). The objective aborts the run beyond this.
+const size_t AT_MIN_EVALS = 50000;
+
 struct Out {
   bool returned = false; bool constraintExc = false; string exc;  // exc: any other exception (type: what)
+  bool budgetAbort = false;  // start at the exact minimiser, default cap: more than AT_MIN_EVALS objective evaluations
   double ret = 0, fv = 0, fStart = 0, fRep = 0, fObj = 0;
   vector<double> rep, objAt;
   unsigned nEval = 0, cap = 0; bool tolReached = false, maxReached = false;
@@ -397,6 +420,7 @@ Out runCase1(vf::Ctx& c, const Case& k) {
   Out o;
   o.obj = make_shared<Obj>(k.spec, k.start, k.consOnFunction ? &k.cons : nullptr);
   o.fStart = k.spec.eval(k.start);
+  if (k.start == k.spec.c && k.cap == 0) o.obj->allowance = AT_MIN_EVALS;
   ParameterList pl;
   for (int j = 0; j < k.spec.n; ++j) pl.addParameter(Parameter(nm(j), k.start[static_cast<size_t>(j)], mk(k.cons[static_cast<size_t>(j)])));
   auto finish = [&](const ParameterList& rep) {
@@ -460,6 +484,8 @@ Out runCase1(vf::Ctx& c, const Case& k) {
     if (o.steps >= 1) o.lastStepEvals = marker->marks.back() - (o.steps >= 2 ? marker->marks[o.steps - 2] : marker->atInit);
     finish(opt->getParameters());
     for (auto& m : bfgsMarkers) if (stepIncrease(o.obj->rec, m->span)) o.bfgsStepIncrease = true;
+  } catch (EvalBudget&) {
+    o.budgetAbort = true; o.exc = "evaluation allowance used up";
   } catch (ConstraintException& e) {
     o.constraintExc = true; o.exc = string("ConstraintException: ") + e.what();
   } catch (std::exception& e) {
@@ -479,7 +505,11 @@ bool acceptedAbort(vf::Ctx& c, const Case& k, const Out& o) {
   if (o.constraintExc && k.policy == KEEP && k.anyCons) { c.label("keep_constraint_exception"); return true; }
   // MetaOptimizer keeps the constraints on its per-optimiser parameter lists under the ignore policy
   if (o.constraintExc && k.opt == META && k.policy == IGNORE && k.anyCons) c.excludeIfKnown("C10-meta-ignore-keeps-constraints");
-  if (o.exc.find("DEBUG: PowellMultiDimensions") != string::npos) c.excludeIfKnown("C10-powell-debug-throw");
+  if (o.budgetAbort) {
+    if (usesKind(k, POWELL) && k.spec.d == 0) c.excludeIfKnown("C10-powell-nan-stop");
+    if (k.opt == META && k.metaN >= 2 && o.fStart <= 0) c.excludeIfKnown("C10-meta-log10-initial-value");
+    CHECK(false, "started at the exact minimiser with the default cap and still running after " << AT_MIN_EVALS << " objective evaluations (the stop test is never met)");
+  }
   CHECK(false, "an exception escaped the optimiser: " << o.exc);
   return true;
 }
@@ -497,23 +527,33 @@ const vector<int> ALL = {BFGS, CG, POWELL, DSM, SIMPLE, SNEWTON, BRENT_OUT, BREN
 
 }  // namespace
 
+namespace {
+// a sub-optimiser driven by step() may leave the function on a trial point (downhill simplex, Powell); the
+// meta-optimiser neither re-synchronises the function nor re-evaluates it: the next sub-optimiser works on a point
+// nobody reported and the value returned belongs to that point
+void excludeMetaStale(vf::Ctx& c, const Case& k) {
+  if (k.opt == META) for (auto& s : k.subs) if (!s.full && (s.kind == DSM || s.kind == POWELL)) c.excludeIfKnown("C10-meta-stale-function");
+}
+}
 // ------------------------------------------------------------------ (a) termination
-LAW(La_termination, RC, 700, 30000, 96, NTR, 20, true) {
+LAW(La_termination, RC, 700, 30000, 160, NTR, 60, true) {
   Filter f; Case k = genCase(c, f, ALL);
   c.desc << showCase(k);
   Out o = runCase(c, k);
   ntRule(c, k, o);
+  c.observe(string("evals_") + ONAME[k.opt], static_cast<double>(o.obj->rec.count()));
   if (acceptedAbort(c, k, o)) return;
   CHECK(o.returned, "optimize() did not return");
 }
 
 // ------------------------------------------------------------------ (b) descent
-LAW(Lb_descent, RC, 900, 40000, 96, NTR, 20, false) {
+LAW(Lb_descent, RC, 900, 40000, 160, NTR, 60, false) {
   Filter f; Case k = genCase(c, f, ALL);
   c.desc << showCase(k);
   Out o = runCase(c, k);
   ntRule(c, k, o);
   if (acceptedAbort(c, k, o)) return;
+  excludeMetaStale(c, k);
   // golden section reports the point it evaluated last, not the best one it holds
   if (k.opt == GOLDEN && o.fRep > o.minSeen) c.excludeIfKnown("C10-golden-reports-last");
   // lineSearch takes the last point the backtracking tried even when the backtracking gave up
@@ -523,16 +563,14 @@ LAW(Lb_descent, RC, 900, 40000, 96, NTR, 20, false) {
 }
 
 // ------------------------------------------------------------------ (c) consistency
-LAW(Lc_consistency, RC, 900, 40000, 96, NTR, 20, false) {
+LAW(Lc_consistency, RC, 900, 40000, 160, NTR, 60, false) {
   Filter f; vector<int> opts; for (int o : ALL) if (o != LINESEARCH) opts.push_back(o);
   Case k = genCase(c, f, opts);
   c.desc << showCase(k);
   Out o = runCase(c, k);
   ntRule(c, k, o);
   if (acceptedAbort(c, k, o)) return;
-  // a sub-optimiser driven by step() may leave the function on a trial point (downhill simplex, Powell); the
-  // meta-optimiser neither re-synchronises the function nor re-evaluates it
-  if (k.opt == META) for (auto& s : k.subs) if (!s.full && (s.kind == DSM || s.kind == POWELL)) c.excludeIfKnown("C10-meta-stale-function");
+  excludeMetaStale(c, k);
   CHECK(vf::sameBits(o.ret, o.fv), "optimize() returned " << vf::dec(o.ret) << " but getFunctionValue() is " << vf::dec(o.fv));
   CHECK(vf::sameBits(o.ret, o.fRep), "optimize() returned " << vf::dec(o.ret) << " but the objective at getParameters()=" << showVec(o.rep) << " is " << vf::dec(o.fRep));
   for (size_t i = 0; i < o.rep.size(); ++i)
@@ -547,7 +585,7 @@ LAW(Lc_consistency, RC, 900, 40000, 96, NTR, 20, false) {
 //       record). Not applied to the meta-optimiser: it adds up the counters of its sub-optimisers, which contain the
 //       sub-optimisers' own iteration counts (weakest reading: no claim);
 //  (iii) isToleranceReached() / isMaximumNumberOfEvaluationsReached() agree with the counter.
-LAW(Ld_budget, RC, 900, 40000, 96, "a small cap that is hit", 20, false) {
+LAW(Ld_budget, RC, 900, 40000, 160, "a small cap that is hit", 60, false) {
   Filter f; f.moreSmallCap = true; vector<int> opts; for (int o : ALL) if (o != LINESEARCH) opts.push_back(o);
   Case k = genCase(c, f, opts);
   c.desc << showCase(k);
@@ -571,29 +609,56 @@ LAW(Ld_budget, RC, 900, 40000, 96, "a small cap that is hit", 20, false) {
 // ------------------------------------------------------------------ (e) convergence on strictly convex quadratics
 namespace {
 // per-optimiser constants (see the header comment)
-const double KOPT[NOPT] = {3, 3, 3, 3, 3, 3, 3, 3, 3, 3, 3, 3};
+//                        bfgs  cg  powell  simplex  simple  s-newton  brent-out  brent-in  golden  newton-1d  (linesearch)  meta
+const double KOPT[NOPT] = {10,   3,  30,     50,      5,      5,        0.2,       0.2,      0.2,    0.01,      0,            30};
 }
-LAW(Le_convergence, RC, 900, 40000, 96, "dim >= 2 or start within 1e-6 of the optimum", 20, false) {
-  Filter f; f.quadOnly = true; f.allowSmallCap = false; f.needCons = -1;
+LAW(Le_convergence, RC, 900, 40000, 160, "dim >= 2 or start within 1e-6 of the optimum", 60, false) {
+  Filter f; f.quadOnly = true; f.allowSmallCap = false; f.needCons = -1; f.convergence = true;
   vector<int> opts; for (int o : ALL) if (o != LINESEARCH) opts.push_back(o);
   Case k = genCase(c, f, opts);
   if (k.anyCons) k.policy = IGNORE;  // constraints present but stripped: none is active
   c.desc << showCase(k);
   // the stop test of the golden section search compares the tolerance with itself: every run stops after 3 steps
   if (k.opt == GOLDEN) c.excludeIfKnown("C10-golden-stop-self-compare");
+  // the simplex method evaluates its stop test with the indices of the highest / lowest vertex found at the *start* of
+  // the step: it stops as soon as the vertex just replaced is as good as the old best, wherever the others are
+  if (usesKind(k, DSM)) c.excludeIfKnown("C10-dsm-stale-indices");
+  if (k.opt == BRENT_IN) {
+    // Brent with inward bracketing searches [lower end, best mesh point] instead of the whole interval: reference
+    // mesh (10 intervals, the default) evaluated here; the defect shows when the minimiser is not below the best point
+    double best = k.xinf, fbest = INF;
+    for (int i = 0; i <= 10; ++i) { double g = k.xinf + (k.xsup - k.xinf) * i / 10.0, v = k.spec.eval(vector<double>{g}); if (v < fbest) { fbest = v; best = g; } }
+    if (k.spec.c[0] >= best - 1e-9 * (1 + std::abs(best))) c.excludeIfKnown("C10-brent-inward-orientation");
+  }
   Out o = runCase(c, k);
   ntRule(c, k, o);
   if (acceptedAbort(c, k, o)) return;
   if (o.bfgsStepIncrease) c.excludeIfKnown("C10-linesearch-takes-rejected-step");  // BFGS stops at the first function increase
+  excludeMetaStale(c, k);
+  // BFGS reads the bounds from the list handed to init(), not from its own (policy-processed) list: under the ignore
+  // policy the search directions are still clipped at the bounds
+  if (usesKind(k, BFGS) && k.policy == IGNORE && k.anyCons) c.excludeIfKnown("C10-bfgs-bounds-under-ignore");
   double err = 0; for (size_t i = 0; i < o.rep.size(); ++i) err = max(err, std::abs(o.rep[i] - k.spec.c[i]));
-  double scale = sqrt(k.tol * max(1.0, std::abs(k.spec.d)) * k.spec.cond() / k.spec.lmin());
+  double lmin = k.spec.lmin(), cond = k.spec.cond();
+  double scale = sqrt(k.tol * max(1.0, std::abs(k.spec.d)) * cond / lmin);
+  if (usesKind(k, BFGS)) {
+    // BFGS starts from the unit matrix and takes the full quasi-Newton step when it decreases f sufficiently: with
+    // small curvature the decrease per step is about |g|^2 = (lambda e)^2, below tau already for e ~ sqrt(tau)/lambda.
+    scale *= max(1.0, 1 / sqrt(lmin));
+    // Its line search (OneDimensionOptimizationTools::lineSearch) gives up once the step is below 1e-4 relative to
+    // max(|x|,1) (hard-coded tolerance of the backtracking): |g| < 1e-4 |x| stalls the first step (e ~ 1e-4 |x| / lambda),
+    // later steps leave up to cond times the relative step in the flat directions.
+    double cm = 1; for (double v : k.spec.c) cm = max(cm, std::abs(v));
+    scale += 1e-4 * cm * max(cond, 1 / lmin);
+  }
   double ratio = max(0.0, err - 1e-9) / scale;
   c.observe(string("conv_ratio_") + ONAME[k.opt], ratio);
-  CHECK(ratio <= KOPT[k.opt], "did not reach the minimiser: |x-c|_inf=" << vf::dec(err) << " = " << ratio << " * sqrt(tol*max(1,|d|)*cond/lambda_min) (+1e-9), allowed " << KOPT[k.opt] << "; reported " << showVec(o.rep));
+  if (getenv("C10_RATIO") && ratio > atof(getenv("C10_RATIO"))) fprintf(stderr, "C10 ratio %g err %g tolReached %d nEval %u: %s\n", ratio, err, o.tolReached, o.nEval, showCase(k).c_str());
+  CHECK(ratio <= KOPT[k.opt], "did not reach the minimiser: |x-c|_inf=" << vf::dec(err) << " = " << ratio << " * scale (+1e-9), allowed " << KOPT[k.opt] << "; reported " << showVec(o.rep));
 }
 
 // ------------------------------------------------------------------ (f) feasibility under the automatic policy
-LAW(Lf_feasible_auto, RC, 900, 40000, 96, "start within 10% of a bound", 20, false) {
+LAW(Lf_feasible_auto, RC, 900, 40000, 160, "start within 10% of a bound", 60, false) {
   Filter f; f.policy = AUTO; f.needCons = 1; f.allowFunctionCons = true;
   Case k = genCase(c, f, ALL);
   c.desc << showCase(k);
